@@ -73,6 +73,11 @@ int _vnacal_new_solve_simple(vnacal_new_solve_state_t *vnssp,
 	vnacal_new_system_t *vnsp = &vnp->vn_system_vector[sindex];
 	const int equations = vnsp->vns_equation_count;
 	int iteration = 0;
+	int w_offset = 0;	/* this system's first entry in w_vector */
+
+	for (int i = 0; i < sindex; ++i) {
+	    w_offset += vnp->vn_system_vector[i].vns_equation_count;
+	}
 
 	/*
 	 * For each iteration on the V matrices (if in use)...
@@ -108,7 +113,7 @@ int _vnacal_new_solve_simple(vnacal_new_solve_state_t *vnssp,
 			value *= vs_get_v(vnssp);
 		    }
 		    if (w_vector != NULL) {
-			value *= w_vector[eq_count];
+			value *= w_vector[w_offset + eq_count];
 		    }
 		    if (xindex == -1) {
 			b_vector[eq_count] += value;
